@@ -14,3 +14,6 @@ CHECK_DEADLOCK FALSE
 INVARIANT Same
 INVARIANT NoStruct
 INVARIANT DoneEmpty
+INVARIANT ErrIff
+INVARIANT CondOnlyGuards
+PROPERTY Monotone
